@@ -39,6 +39,11 @@ def gen_case(rng):
         y = Q @ x + np.array([rng.gauss(0, sigma) for _ in range(x.size)])
         ms.append((Q, y, sigma, cl))
     total = rng.choice([None, None, float(N), 1.0, 0.4])
+    if rng.random() < 0.15:
+        # directed stream: noise dominates the signal, the unbiased estimate of the total is below 1 (or negative): the floor at 1 applies
+        ident = [(Q, y - rng.choice([1.0, 3.0]) * (abs(float(np.sum(y))) + 5.0) / len(y), s, cl) for Q, y, s, cl in ms if Q.shape[0] == Q.shape[1] and np.allclose(Q, np.eye(Q.shape[0]))]
+        ms = ident or [(np.eye(sizes[0]), np.array([-4.0] + [1.5] * (sizes[0] - 1)), 2.0, (names[0],))]
+        total = None
     if rng.random() < 0.3 and k >= 2:
         # directed stream: two perfectly correlated public attributes; a precise measurement the uniform weights already fit, and a
         # noisy, skewed measurement on the correlated attribute (the two conflict through the public data)
